@@ -5,7 +5,7 @@ from lib import vlib
 RULE = ("limits: 6 resources (locals, parameters, call arguments, array / map literal elements, constants) x {capacity-1, capacity, "
         "capacity+1} (capacity derived in TLA+ from the real operand-width table) x declaring forms x nesting (main, function, source "
         "module, Eval fragment), optimizer on/off; soup: every token string up to 3 (thorough 4) tokens over a 40-token alphabet; "
-        "near: 12 valid skeleton programs covering every statement kind x every single token edit (insert / replace by any alphabet token, delete, repeat a two-token window, exchange neighbours; thorough: followed by every structural second edit); "
+        "near: 12 valid skeleton programs covering every statement kind x every single token edit (insert / replace by any alphabet token, delete, repeat a two-token window, exchange neighbours; thorough: followed by every structural second edit), each compiled with the optimizer on / off / at budget 1, with tracing on, with a re-used symbol table, as a source module and as an Eval fragment; "
         "evalseq: every sequence of up to 3 (thorough 4) fragments of a 16-fragment catalogue in one Eval session, including fragments that fail after an import / declaration / constant; "
         "corpus: every UgoSem program x 5 option sets + a re-used symbol table; each compilation under recover, a 30 s watchdog and a "
         "memory ceiling in a restartable worker; on success the bytecode is scanned (jump / try targets, constant, local, builtin, "
